@@ -312,6 +312,25 @@ def s3_calculator(ctx):
                 ctx.violation('S3 sampled save wrote %d objects' % len(fake.log), {'ratio': ratio})
             if len(seen) != 1 or seen[0][0] != 'Cat' or not isinstance(seen[0][1], int) or seen[0][1] <= 0 or seen[0][2] is not rec:
                 ctx.violation('S3 sampling calculator was not called once with (category, size, recording)', {'seen': repr(seen)[:200]})
+    # the calculator may be any callable - also an object that happens to be falsy (an empty rule book derived from dict)
+    class RuleBook(dict):
+        def __call__(self, category, size, recording):
+            return self.get(category, 0.0)
+    for book, exp_stored in ((RuleBook(), False), (RuleBook(Cat=1.0), True), (RuleBook(Other=1.0), False)):
+        fake = FakeS3()
+        with fake.installed():
+            c = fake.cassette('w', key_prefix='s', read_only=False, sampling_calculator=book)
+            sr = SpyRandom(1)
+            sr.script = [0.5]
+            c._random = sr
+            rec = c.create_new_recording('Cat')
+            rec.set_data('k', 1)
+            c.save_recording(rec)
+            ctx.case(('s3calc_object', len(book), exp_stored))
+            ctx.count('s3_calculator_decisions')
+            if (len(fake.log) > 0) != exp_stored:
+                ctx.violation('S3 size-based sampling with a callable OBJECT as calculator (falsy: %s) %s the recording, its ratio says %s' % (
+                    not book, 'stored' if fake.log else 'dropped', 'store' if exp_stored else 'drop'), {'rule_book': dict(book)})
     # reproducible from the seed: the same history on two fresh cassettes (their own, untouched RNG) gives the same decisions
     seqs = []
     for run_no in range(2):
